@@ -99,7 +99,7 @@ func (c *WCurve) Mul(k *big.Int, p WPoint) WPoint {
 // MulG returns (k mod R)·G using a table of 2^i·G (G has order R).
 func (c *WCurve) MulG(k *big.Int) WPoint {
 	c.once.Do(func() {
-		n := c.R.BitLen()
+		n := c.R.BitLen() + 2
 		c.tab = make([]WPoint, n)
 		c.tab[0] = c.G
 		for i := 1; i < n; i++ {
@@ -114,11 +114,20 @@ func (c *WCurve) MulG(k *big.Int) WPoint {
 		return v
 	}
 	c.mu.Unlock()
+	// non-adjacent form of kk: digit d_i ∈ {−1,0,1} at 2^i (a run of one-bits costs two additions)
 	acc := c.Identity()
-	for i := 0; i < kk.BitLen(); i++ {
-		if kk.Bit(i) == 1 {
-			acc = c.Add(acc, c.tab[i])
+	rest := new(big.Int).Set(kk)
+	for i := 0; rest.Sign() > 0; i++ {
+		if rest.Bit(0) == 1 {
+			if rest.Bit(1) == 1 { // ≡ 3 mod 4: digit −1
+				acc = c.Add(acc, c.Neg(c.tab[i]))
+				rest.Add(rest, big.NewInt(1))
+			} else {
+				acc = c.Add(acc, c.tab[i])
+				rest.Sub(rest, big.NewInt(1))
+			}
 		}
+		rest.Rsh(rest, 1)
 	}
 	// results are memoised (callers treat points as immutable values)
 	c.mu.Lock()
